@@ -356,6 +356,28 @@ def prune(d: Dict[str, Any], keep: set, path: str = "d") -> Dict[str, Any]:
 
 
 def run_recipe(ctx: Ctx, recipe: Dict[str, Any], cid: str) -> Case:
+    """one description on a fresh factory, or — recipe["history"] — several descriptions one after the other on ONE
+    long-lived factory (documents change in between); the Case is the LAST creation, judged against the documents served
+    at that time"""
+    if "history" in recipe:
+        return run_history(ctx, recipe["history"], cid)[-1]
+    return run_step(ctx, recipe, cid, {})
+
+
+def run_history(ctx: Ctx, steps: List[Dict[str, Any]], cid: str) -> List[Case]:
+    """every creation of the history as its own Case (recipe = the history up to it); strict / ctor of the first step"""
+    holder: Dict[str, Any] = {}
+    out = []
+    for k, step in enumerate(steps):
+        step = {**step, "strict": steps[0]["strict"], "ctor": steps[0].get("ctor", "non_strict")}
+        c = run_step(ctx, step, f"{cid}.{k}" if k < len(steps) - 1 else cid, holder)
+        c.recipe = {"history": steps[:k + 1]}
+        c.tags = sorted(set(c.tags) | {f"history:step{min(k, 3)}"})
+        out.append(c)
+    return out
+
+
+def run_step(ctx: Ctx, recipe: Dict[str, Any], cid: str, holder: Dict[str, Any]) -> Case:
     from async_upnp_client.client_factory import UpnpFactory
 
     base = recipe["base"]
@@ -392,10 +414,13 @@ def run_recipe(ctx: Ctx, recipe: Dict[str, Any], cid: str) -> Case:
     root = recipe.get("root")
     docs[base] = (200, render_description(st, d)) if root is None else tuple(root)
 
-    req = FakeRequester(docs)
     # the three constructor forms of a non-strict factory
     ctor = recipe.get("ctor", "non_strict")
-    factory = UpnpFactory(req) if strict else UpnpFactory(req, **{ctor: True})
+    if "factory" not in holder:                    # a history keeps ONE requester and ONE factory for all its steps
+        holder["req"] = FakeRequester(docs)
+        holder["factory"] = UpnpFactory(holder["req"]) if strict else UpnpFactory(holder["req"], **{ctor: True})
+    holder["req"].docs = docs                      # what the network serves NOW
+    factory = holder["factory"]
     tags.add("ctor:" + ("strict" if strict else ctor))
     loop = asyncio.new_event_loop()
     nontrivial = False
@@ -672,6 +697,52 @@ def gen_recipe(rng, wf: bool) -> Dict[str, Any]:
                                 "disable_unknown_out_argument_error"])}
 
 
+def mutate_for_history(rng, rec: Dict[str, Any]) -> Dict[str, Any]:
+    """the same device a moment later: some SCPD changed / corrupted / repaired at the SAME URL, two services' documents
+    swapped, the description itself changed, or another device (other base URL) reusing the same relative SCPD paths"""
+    new = json.loads(json.dumps(rec))
+    svcs = all_services(new["dev"])
+    k = rng.randrange(7)
+    new["style"] = rng.randrange(1 << 30)
+    if k == 0 and svcs:
+        rng.choice(svcs)["doc"] = g_scpd(rng, True)                       # same URL, other content
+    elif k == 1 and svcs:
+        s0 = rng.choice(svcs)
+        s0["doc"] = corrupt(rng, s0["doc"]) if s0["doc"]["kind"] == "scpd" else g_scpd(rng, True)   # corrupted / repaired
+    elif k == 2 and len(svcs) >= 2:
+        a, b = rng.sample(svcs, 2)
+        a["doc"], b["doc"] = b["doc"], a["doc"]                           # documents swapped between two URLs
+    elif k == 3:
+        d2 = g_device(rng, 0, 1, True, 0.0, [50])                          # the description changes, SCPD paths may recur
+        for s_new, s_old in zip(all_services(d2), svcs):
+            s_new["scpd"] = s_old["scpd"]
+        new["dev"] = d2
+    elif k == 4:
+        new["base"] = rng.choice([b for b in BASES if b != rec["base"]])   # another device: same relative paths, other base
+        for s0 in svcs:
+            if rng.random() < 0.7:
+                s0["doc"] = g_scpd(rng, True)
+    elif k == 5 and svcs:
+        for s0 in svcs:
+            s0["doc"] = g_scpd(rng, True)                                  # every document replaced
+    else:
+        pass                                                               # nothing changed: the same answer again
+    return new
+
+
+def gen_history(rng) -> List[Dict[str, Any]]:
+    first = gen_recipe(rng, True)
+    if rng.random() < 0.3:                                                 # a first attempt that fails / degrades
+        svcs = all_services(first["dev"])
+        if svcs:
+            s0 = rng.choice(svcs)
+            s0["doc"] = corrupt(rng, s0["doc"])
+    steps = [first]
+    for _ in range(rng.choice([1, 1, 2, 3])):
+        steps.append(mutate_for_history(rng, steps[-1]))
+    return steps
+
+
 def leaf_dev(services=None, icons=None, embedded=None, n=1) -> Dict[str, Any]:
     info = [f"urn:schemas-upnp-org:device:Basic:{n}", "name", "manu", None, None, "model", None, None, None, f"uuid:{n}", None, None]
     return {"info": info, "icons": icons or [], "services": services or [], "embedded": embedded or []}
@@ -755,6 +826,17 @@ def corpus() -> List[Dict[str, Any]]:
                         "style": 20 + k})
     # two services sharing one SCPD document
     out.append({"base": b, "strict": True, "dev": leaf_dev([svc(1, doc), {**svc(2, doc), "scpd": "scpd1.xml"}]), "style": 8})
+    # histories on one factory: changed SCPD at the same URL; strict failure then the repaired document; swapped documents;
+    # two devices under different bases with the same relative SCPD path and different content
+    doc2 = {"kind": "scpd", "vars": [var("Z", "string", allowed=["x", "y"])], "actions": None}
+    bad = {"kind": "unparsable", "text": "garbage"}
+    mk = lambda base_, docs_, strict=True: {"base": base_, "strict": strict,  # noqa: E731
+                                           "dev": leaf_dev([svc(i + 1, d_) for i, d_ in enumerate(docs_)]), "style": 30}
+    out.append({"history": [mk(b, [doc]), mk(b, [doc2]), mk(b, [doc])]})
+    out.append({"history": [mk(b, [doc, bad]), mk(b, [doc, doc2])]})
+    out.append({"history": [mk(b, [doc, doc2]), mk(b, [doc2, doc])]})
+    out.append({"history": [mk(b, [doc]), mk("http://10.9.9.9/other/desc.xml", [doc2])]})
+    out.append({"history": [mk(b, [doc, doc2], False), mk(b, [bad, doc], False), mk(b, [doc2, bad], False)]})
     return out
 
 
@@ -767,13 +849,20 @@ def generate(ctx: Ctx) -> List[Case]:
     cases: List[Case] = []
     i = 0
     for rec in CORPUS:
-        cases.append(run_recipe(ctx, rec, f"corpus{i}"))
+        if "history" in rec:
+            cases += run_history(ctx, rec["history"], f"corpus{i}")
+        else:
+            cases.append(run_recipe(ctx, rec, f"corpus{i}"))
         i += 1
     for _ in range(n_wf):
         cases.append(run_recipe(ctx, gen_recipe(ctx.rng, True), f"w{i}"))
         i += 1
     for _ in range(n_mal):
         cases.append(run_recipe(ctx, gen_recipe(ctx.rng, False), f"m{i}"))
+        i += 1
+    # histories on one long-lived factory: every creation is judged against the documents served at that time
+    for _ in range(4000 if ctx.thorough else 250):
+        cases += run_history(ctx, gen_history(ctx.rng), f"h{i}")
         i += 1
     return cases
 
